@@ -29,7 +29,15 @@ RULE = ("histories of advertisements over {genuine last+1, last+k (k<100), last,
         "numbers, next, +5, beyond the window, replays of anything broadcast before, wrong key, wrong associated advertising id, bit flips, inner counter, unknown instance id, short); the accessory's own "
         "state number only grows; oracle = the harness's bookkeeping of the state numbers the CURRENT pairing object has legitimately learned in this process (the regular advertisement known when it was "
         "loaded or processed for it, else the cache entry it was loaded from, then accepted notifications): nothing is accepted at or below it, outside the window, without a key or before ANY number has "
-        "been learned; the notify histories establish their start number through the same start-up orders in turn (notify/boot/*) and are judged against the harness's own last-accepted number")
+        "been learned; the notify histories establish their start number through the same start-up orders in turn (notify/boot/*) and are judged against the harness's own last-accepted number; "
+        "top: histories through the TOP-LEVEL Controller in which pairings END and others BEGIN - async_start (stand-in scanner), load_pairing / load_data, subscribe + populate over a fake radio with a real "
+        "pair-verify (the accessory generates a broadcast key bound to that session and that controller key), Controller.remove_pairing succeeding, failing in every way the transport can fail (accessory out of "
+        "reach with each error class of the connector, link lost at each GATT operation of the exchange on every / only the first connection, removal refused, wrong state, empty answer, PDU status, hang-up before "
+        "the answer is processed, a disconnect that raises) and cancelled at ten moments, asked twice; then load_pairing with the SAME or with NEW pairing data (accessory factory reset: state number restarts / "
+        "paired again: it continues; also stale data of the previous identity), a process restart over the same characteristic cache (memory object / file, stopped / killed) or a deleted cache - interleaved with "
+        "accessory events, regular advertisements, replays of every recording and fresh sealings under EVERY broadcast key that ever existed in the history (+ stale, far, inner counter, unknown instance id, "
+        "wrong key / associated data / bit flips); directed grid way-of-removing x continuation + random; oracle = the harness's bookkeeping of WHICH pairing identity negotiated WHICH key: a pairing object may "
+        "use the keys of its own identity and those its storage chain hands down, and that chain ends with Controller.remove_pairing (any outcome) or the deletion of the cache; state-number candidates as in life")
 TRUSTED = ["cryptography ChaCha20Poly1305 (full tag truncated to 4 bytes) as the accessory's sealing"]
 ASSUMPTIONS = ["a 32-bit tag is forgeable with probability 2^-32 per candidate: outside the symbolic model",
                "bleak BLEDevice/AdvertisementData are duck-typed mocks; the fall-back poll (_process_disconnected_events) is replaced by a recorder",
@@ -42,7 +50,15 @@ ASSUMPTIONS = ["a 32-bit tag is forgeable with probability 2^-32 per candidate: 
                "number only grows) and always configuration number 1; where two sources of the last number disagree and the property does not rank them (stored number above the advertised one; a pairing "
                "object created anew, without a regular advertisement known, from a cache entry that is behind what its predecessor accepted - accepted notifications are not written to the cache; a state "
                "number handed over through restore_accessories_state) either is accepted as the reference (counted as life/accepted-below-largest, listed in the notes); a restart is a new process "
-               "whose reference starts from the cache entry"]
+               "whose reference starts from the cache entry",
+               "top: the scanner is a stand-in class whose detection callback the harness calls; IP / CoAP backends are switched off (no network), the BLE backend is registered by Controller.async_start; the radio is "
+               "the scripted GATT accessory of dbhist on a virtual-time loop (connect 0.3 s, 10 ms per GATT operation), pair-setup itself is not run: new pairing data is what a pair-setup with the reset accessory "
+               "would have produced; the key in the cache entry at the start belongs to the first identity; a pairing loaded with new pairing data although nothing ever removed the previous identity's cache entry "
+               "inherits that entry's key without a verdict (counted as top/load/inherits-entry-of-other-identity-never-removed); pairing objects the application has replaced or removed are judged on listener calls "
+               "only, against every number they may have had; numbers a session may or may not have told the pairing are additional candidates; what remove_pairing raises is recorded (top/remove/*), not judged; "
+               "with an AccessoryPairingID that is NOT lower case the unchanged library does not take a removed pairing out of the BLE controller's routing table (it pops the id as given from tables keyed by the "
+               "lower-case id), and the removed, shut-down pairing re-creates its cache entry - broadcast key included - when the next regular advertisement carries a new state number: such histories are run as "
+               "probes, their findings go to the notes (top (probe ...)) and the distribution (top/probe/*), not to the verdict"]
 EXPLANATION = "Lean theorems C18_* over the candidate-window automaton with a symbolic partial-tag AEAD (accept => authentic+fresh, reject => unchanged, no replay over histories, value decoding); differential tie through BleController._device_detected"
 
 KEY = bytes(range(32))
@@ -176,9 +192,9 @@ FIXED_SERVICES = [[9000, "00000055-0000-1000-8000-0026BB765291", [[9001, "000000
                   [9100, "000000A2-0000-1000-8000-0026BB765291", [[9101, "000000A5-0000-1000-8000-0026BB765291", "data"]]]]
 
 
-def db_accessories(db):
+def db_accessories(db, fixed=None):
     return [{"aid": 1, "services": [{"iid": int(s[0]), "type": s[1], "characteristics": [
-        {"iid": int(c[0]), "type": c[1], "format": c[2], "perms": ["pr", "ev"], "value": None} for c in s[2]]} for s in list(db) + FIXED_SERVICES]}]
+        {"iid": int(c[0]), "type": c[1], "format": c[2], "perms": ["pr", "ev"], "value": None} for c in s[2]]} for s in list(db) + (FIXED_SERVICES if fixed is None else fixed)]}]
 
 
 def gen_db(rng, prev=None, force=None):
@@ -344,10 +360,10 @@ class _GServices:
         return iter(self.services.values())
 
 
-def _gatt_table(db):
+def _gatt_table(db, fixed=None):
     """GATT services of an accessory whose HAP database is `db`, plus the pairing service every accessory has"""
     out, h = [], 16
-    for siid, stype, chars in list(db) + FIXED_SERVICES:
+    for siid, stype, chars in list(db) + (FIXED_SERVICES if fixed is None else fixed):
         s = _GService(stype, int(siid), h)
         h += 1
         s.characteristics.append(_GChar(_SVC_IID_UUID, h, None, None, s))
@@ -469,10 +485,16 @@ class _GattClient:
             else:
                 out = refacc.tlv([(6, b"\x04"), (7, b"\x02")])
             out = refacc.tlv([(0x01, out)])
+        elif (extra := self.extra_request(opcode, target, char, body, encrypted)) is not None:
+            status, out = extra
         else:
             status = 6
         pdu = bytes([0x02, tid, status]) + (len(out).to_bytes(2, "little") + out if out else b"")
         self.pending[char.handle] = (pdu, encrypted)
+
+    def extra_request(self, opcode, target, char, body, encrypted):
+        """requests a particular stream's accessory answers besides the ones above: (status, body) or None"""
+        return None
 
     async def read_gatt_char(self, char):
         self._check()
@@ -1546,6 +1568,876 @@ def life_stream(ctx):
                          f"a state handed over by the application) - no verdict; e.g. {[o for o in observations if not o.startswith('DEV')][:2]}")
 
 
+# ================================================================ the TOP-LEVEL Controller: pairings come, go and come back
+# The histories above never end a pairing and never change its identity.  Here the application works with the top-level
+# Controller the way it does in production: async_start (the BLE backend is registered, the scanner is a stand-in that hands
+# over what the harness tells it to), load_pairing / load_data, subscribe + populate (over a fake radio with a real pair-verify the
+# accessory generates a broadcast key bound to THAT session and THAT controller key), Controller.remove_pairing - succeeding,
+# failing with every error class the transport raises (accessory out of reach, link lost at every step of the exchange, removal
+# refused, unusable answers, a disconnect that fails), cancelled at any moment - then load_pairing again with the SAME or with NEW
+# pairing data (the accessory was factory reset / paired again: new long-term keys, its state number restarts or continues), a
+# restart of the process over the same characteristic cache (memory object or file) or after the cache was deleted - interleaved
+# with the accessory's events, its regular advertisements and notifications sealed under EVERY broadcast key that ever existed in
+# the history (replays of recordings and fresh sealings by whoever still knows an old key).
+#
+# Oracle (harness bookkeeping only).  The harness knows which pairing identity negotiated which key: a key is generated by the
+# accessory inside a session verified with the long-term keys of one identity; the key the cache entry holds at the start belongs
+# to the first identity.  A pairing object may use
+#   * the keys its own identity negotiated, and
+#   * the keys the storage chain handed down to it: the cache entry of the accessory id lives on across reloads and restarts
+#     (also when the application swaps the pairing data without removing anything - counted, no verdict), and ENDS with
+#     Controller.remove_pairing (whatever its outcome: afterwards the controller no longer knows the pairing) or with the deletion
+#     of the cache.
+# A notification may change state or reach listeners of a pairing object only if it is sealed under such a key for the advertising
+# id, its inner counter equals the nonce counter and L < g < L+100 for a state number L the object may have as its last one (the
+# candidate sets of the life-cycle stream above; numbers learned inside sessions and everything about retired objects are kept as
+# additional candidates - a superset, so that freshness is never demanded more strictly than the property does).
+TOP_ALIAS = "hall"
+TOP_INIT_KEY = bytes(range(160, 192))
+_PAIRINGS_UUID = "00000050-0000-1000-8000-0026BB765291"
+TOP_FIXED = [[9000, "00000055-0000-1000-8000-0026BB765291", [[9001, _PAIR_VERIFY, "data"], [9002, _PAIRINGS_UUID, "data"]]], FIXED_SERVICES[1]]
+TOP_DB = [[1000, SERVICE_TYPES[0], [[iid, CHAR_TYPES[k], fmt] for k, (fmt, iid) in enumerate(FORMATS.items())]]]
+
+# how a Controller.remove_pairing can go, by what the radio / the accessory does meanwhile
+TOP_DOWN = ("BleakError", "BleakNotFoundError", "BleakOutOfConnectionSlotsError", "BleakAbortedError", "BleakConnectionError", "BleakDeviceNotFoundError", "BleakDBusError",
+            "TimeoutError", "EOFError", "BrokenPipeError")
+TOP_REMOVALS = (["ok", "ok-hangup"] + ["down:" + e for e in TOP_DOWN]
+                # the link is lost at the n-th GATT operation of every connection (1-4: pair-verify, 5: the removal request, 6: its answer)
+                + [f"drop:{n}:{e}" for n, e in ((1, "BleakError"), (2, "BleakError"), (3, "EOFError"), (4, "BleakError"), (5, "BleakError"), (5, "BrokenPipeError"), (6, "BleakError"),
+                                                 (6, "TimeoutError"), (6, "EOFError"))]
+                + ["drop1:6:BleakError", "drop1:2:BleakError"]          # ... of the first connection only: the retry gets through
+                + ["refuse:2", "refuse:1", "refuse:6", "badstate", "mangled", "status:5", "status:3"]
+                + ["disc:RuntimeError", "disc:OSError", "disc:BleakError", "disc:TimeoutError"])
+TOP_CANCELS = (("ok", 0.0), ("ok", 0.1), ("ok", 0.315), ("ok", 0.335), ("ok", 0.355), ("ok", 0.365), ("down:BleakError", 0.2), ("down:BleakError", 1.0), ("drop:6:BleakError", 0.5),
+               ("refuse:2", 0.37))
+
+
+def _top_exc(name):
+    import asyncio
+
+    import bleak.exc as bx
+    import bleak_retry_connector as brc
+    msg = "Device with address AA:BB:CC:DD:EE:FF was not found"
+    if name == "BleakDeviceNotFoundError":
+        return bx.BleakDeviceNotFoundError("AA:BB:CC:DD:EE:FF", msg)
+    if name == "BleakDBusError":
+        return bx.BleakDBusError("org.bluez.Error.Failed", ["le-connection-abort-by-local"])
+    if name.startswith("Bleak"):
+        return getattr(brc, name, bx.BleakError)(msg)
+    return {"TimeoutError": asyncio.TimeoutError, "EOFError": EOFError, "BrokenPipeError": BrokenPipeError, "OSError": OSError, "RuntimeError": RuntimeError}[name](msg)
+
+
+class _TopScanner:
+    """the BLE scanner: starts, stops, and reports what the harness tells it to"""
+    current = None
+
+    def __init__(self, detection_callback=None, **kw):
+        self.detection_callback = detection_callback
+        self.discovered_devices_and_advertisement_data = {}
+        type(self).current = self
+
+    async def start(self):
+        return None
+
+    async def stop(self):
+        return None
+
+
+class _TopAcc:
+    """the accessory: its identities (a factory reset / a new pair-setup gives it new long-term keys), its own state number and
+    EVERY broadcast key it ever sealed with, each with the identity whose session generated it"""
+
+    def __init__(self, pid, gsn, init_key):
+        self.who = "A"
+        self.pid = pid
+        self.address = LIFE_PID
+        self.db = TOP_DB
+        self.gen = -1
+        self.idents = []            # the pairing identities, as pair-setup established them
+        self.keys = []              # [{"key", "gen"}]
+        self._bkey = None
+        self.keys_generated = 0
+        self.gsn, self.cfg = gsn, 1
+        self.client = None
+        self.sig_served, self.val_served, self.verified = set(), set(), 0
+        self.removals = 0
+        self.new_identity()
+        if init_key:
+            self.keys.append({"key": init_key, "gen": 0})
+            self._bkey = init_key
+
+    @property
+    def bkey(self):
+        return self._bkey
+
+    @bkey.setter
+    def bkey(self, k):
+        self._bkey = k
+        if k is not None:
+            self.keys.append({"key": k, "gen": self.gen})
+
+    def key_index(self):
+        return next((i for i in range(len(self.keys) - 1, -1, -1) if self.keys[i]["key"] == self._bkey), None) if self._bkey else None
+
+    def new_identity(self):
+        import random as _r
+        self.gen += 1
+        r = _r.Random(f"c18-top-{self.gen}")
+        self.rb = lambda n: bytes(r.randrange(256) for _ in range(n))
+        self.ident = refacc.Identity(self.rb, acc_id=self.pid.encode(), ios_id=f"ctrl-{self.gen}")
+        self.idents.append(self.ident)
+        self._bkey = None           # the broadcast key goes with the pairing
+        self.hang_up()
+
+    def unpair(self):
+        """the (only) pairing was removed: nobody can set up a session any more, the broadcast key is discarded"""
+        import copy
+        stranger = copy.copy(self.ident)
+        stranger.ios_id = "nobody"
+        stranger.ios_ltpk = bytes(32)
+        self.ident = stranger
+        self._bkey = None
+        self.removals += 1
+
+    def hang_up(self, notify=True):
+        if self.client is not None:
+            self.client.drop(notify=notify)
+            self.client = None
+
+    def connect(self, disconnected_callback, plan):
+        self.hang_up()
+        self.client = _TopClient(self, disconnected_callback, plan)
+        return self.client
+
+
+class _TopClient(_GattClient):
+    """one connection over the fake radio: operations take (virtual) time, the link can be lost at a given operation, the accessory
+    answers pairing-removal requests"""
+
+    def __init__(self, acc, disconnected_callback, plan):
+        super().__init__(acc, disconnected_callback)
+        self.services = _gatt_table(acc.db, TOP_FIXED)
+        self.plan = plan
+        self.ops = 0
+        self.hang_up_after_read = False
+
+    async def _op(self):
+        import asyncio
+        await asyncio.sleep(0.01)
+        self.ops += 1
+        d = self.plan.get("drop")
+        if d and self.is_connected and self.ops == d["at"] and not (d["once"] and d.get("done")):
+            d["done"] = True
+            self.drop()
+            raise _top_exc(d["exc"])
+
+    async def write_gatt_char(self, char, data, response=False):
+        await self._op()
+        return await super().write_gatt_char(char, data, response)
+
+    async def read_gatt_char(self, char):
+        await self._op()
+        out = await super().read_gatt_char(char)
+        if self.hang_up_after_read:
+            # HAP 5.11: the sessions of a removed controller are torn down - at once, or a moment after the answer went out
+            import asyncio
+            if self.plan.get("removal") == "ok-hangup":
+                self.drop()
+            else:
+                asyncio.get_event_loop().call_later(0.05, self.drop)
+            self.hang_up_after_read = False
+        return out
+
+    async def disconnect(self):
+        if self.plan.get("disc") and self.is_connected:
+            raise _top_exc(self.plan["disc"])
+        return await super().disconnect()
+
+    def extra_request(self, opcode, target, char, body, encrypted):
+        if not (opcode == 0x02 and encrypted and char.uuid == _PAIRINGS_UUID.lower()):
+            return None
+        req = refacc.untlv(refacc.untlv(body).get(0x01, b""))
+        mode = self.plan.get("removal", "ok")
+        if req.get(0) != b"\x04" or req.get(6) != b"\x01":      # only RemovePairing is served
+            return 0, refacc.tlv([(0x01, refacc.tlv([(6, b"\x02"), (7, b"\x01")]))])
+        if mode.startswith("status:"):
+            return int(mode.split(":")[1]), b""
+        if mode == "mangled":
+            return 0, b""
+        if mode.startswith("refuse:"):
+            inner = refacc.tlv([(6, b"\x02"), (7, bytes([int(mode.split(":")[1])]))])
+        elif mode == "badstate":
+            inner = refacc.tlv([(6, b"\x04")])
+        else:
+            if req.get(1) == self.acc.ident.ios_id.encode():
+                self.acc.unpair()
+                self.hang_up_after_read = True
+            inner = refacc.tlv([(6, b"\x02")])
+        return 0, refacc.tlv([(0x01, inner)])
+
+
+def _top_plan(mode):
+    kind, _, rest = mode.partition(":")
+    if kind == "down":
+        return {"down": rest}
+    if kind in ("drop", "drop1"):
+        n, exc = rest.split(":")
+        return {"drop": {"at": int(n), "exc": exc, "once": kind == "drop1"}}
+    if kind == "disc":
+        return {"disc": rest}
+    return {"removal": mode}
+
+
+class _Top:
+    def __init__(self, case):
+        from collections import Counter
+        self.case = case
+        self.pid = LIFE_PID.lower() if case.get("lower", True) else LIFE_PID
+        entry = case["cache"].get("entry")
+        self.acc = _TopAcc(self.pid, case["acc0"], TOP_INIT_KEY if entry and entry.get("key") else None)
+        self.stats, self.viol, self.obs = Counter(), [], []
+        self.records = []           # every pairing object the application ever got: {"p", "gen", "log", "state": live|retired|dead, "inherited", "S"}
+        self.cur = None
+        self.S = self.D = None      # as in _run_life
+        self.store_keys = {0} if self.acc.keys else set()      # the keys the storage chain of this accessory id legitimately carries
+        self.store_gen = 0 if self.acc.keys else None
+        self.plan = {}
+        self.in_range = True
+        self.issued = []            # everything the accessory ever broadcast
+        self.verified_seen, self.keys_seen = 0, len(self.acc.keys)
+        self.tmp = self.path = self.mem = self.ctrl = None
+        self.fmt_of = db_formats(TOP_DB)
+        self.idx = 0
+        self.tag = ""
+
+    # ---------------------------------------------------------------- the application process
+    def tmpdir(self):
+        import tempfile
+        if self.tmp is None:
+            self.tmp = tempfile.mkdtemp(prefix="c18top")
+        return self.tmp
+
+    async def boot(self, first=False):
+        import os
+        import pathlib
+
+        from aiohomekit.characteristic_cache import CharacteristicCacheFile, CharacteristicCacheMemory
+        from aiohomekit.controller import Controller
+        from aiohomekit.controller.abstract import TransportType
+        kind = self.case["cache"]["kind"]
+        if first:
+            entry = self.case["cache"].get("entry")
+            if kind == "file":
+                self.path = pathlib.Path(os.path.join(self.tmpdir(), "cache.json"))
+                store = CharacteristicCacheFile(self.path)
+            else:
+                store = self.mem = CharacteristicCacheMemory()
+            if entry:       # what earlier sessions of the first pairing left behind
+                store.async_create_or_update_map(self.pid, 1, db_accessories(TOP_DB, TOP_FIXED), TOP_INIT_KEY.hex() if entry.get("key") else None, entry.get("state"))
+        self.cache = CharacteristicCacheFile(self.path) if kind == "file" else self.mem
+        self.ctrl = Controller(char_cache=self.cache)
+        await self.ctrl.async_start()
+        if TransportType.BLE not in self.ctrl.transports:
+            raise RuntimeError("the BLE backend was not registered by Controller.async_start")
+        self.detect = _TopScanner.current.detection_callback
+
+    async def end_process(self, how):
+        import asyncio
+        if how == "stop":
+            for R in self.records:
+                if R["state"] == "live":
+                    try:
+                        await asyncio.wait_for(R["p"].shutdown(), 300)
+                    except Exception as e:  # noqa: BLE001 - not this property's business
+                        self.stats["shutdown/error/" + type(e).__name__] += 1
+            try:
+                await self.ctrl.async_stop()
+            except Exception as e:  # noqa: BLE001
+                self.stats["async_stop/error/" + type(e).__name__] += 1
+        await self.kill_tasks()
+        self.acc.hang_up(notify=False)
+        for R in self.records:
+            R["state"] = "dead"         # objects of a process that is gone: their listeners must hear nothing more
+        self.cur = None
+        self.S = self.D = None
+
+    async def kill_tasks(self):
+        import asyncio
+        left = [t for t in asyncio.all_tasks() if t is not asyncio.current_task() and not t.done()]
+        for t in left:
+            t.cancel()
+        if left:
+            await asyncio.wait(left, timeout=5)
+
+    async def settle(self):
+        """let the library's background work finish (virtual time); what does not finish is stopped"""
+        import asyncio
+        for rnd in range(3):
+            tasks = [t for t in asyncio.all_tasks() if t is not asyncio.current_task() and not t.done()]
+            if tasks:
+                await asyncio.wait(tasks, timeout=200)
+            if rnd == 0:
+                await asyncio.sleep(2)      # debounced work (start of GATT notifications)
+        left = [t for t in asyncio.all_tasks() if t is not asyncio.current_task() and not t.done()]
+        if left:
+            self.stats["background-task-stopped"] += len(left)
+            await self.kill_tasks()
+        # connections do not live long on battery powered accessories
+        self.acc.hang_up()
+        await asyncio.sleep(0)
+
+    def book(self):
+        """bookkeeping after an event: sessions that took place, keys the accessory generated in them"""
+        acc = self.acc
+        if acc.verified != self.verified_seen:
+            self.stats["sessions"] += acc.verified - self.verified_seen
+            self.verified_seen = acc.verified
+            n = acc.gsn & 0xFFFF        # a session may have told the pairing the accessory's number - or not
+            if self.cur is not None and self.S is not None:
+                self.S.add(n)
+            elif self.D is not None:
+                self.D.add(n)
+            for R in self.records:
+                if R["state"] == "retired":
+                    R["S"].add(n)
+        for i in range(self.keys_seen, len(acc.keys)):
+            self.store_keys.add(i)
+            self.store_gen = acc.keys[i]["gen"]
+            self.stats["key-negotiated"] += 1
+        self.keys_seen = len(acc.keys)
+
+    def retire(self, R, removed):
+        R["state"] = "retired"
+        R["S"] = set(_ints(self.S or ())) | set(_ints(self.D or ()))
+        R["removed"] = removed
+
+    def bad(self, sig, what):
+        self.viol.append((sig, what, self.idx))
+
+    def state(self):
+        p = self.cur["p"] if self.cur else None
+        return p.description.state_num if p is not None and p.description else None
+
+    # ---------------------------------------------------------------- events
+    async def run(self):
+        import asyncio
+        await self.boot(first=True)
+        evs = self.case["events"]
+        for idx, ev in enumerate(evs):
+            self.idx = idx
+            self.tag = (f"top-level event #{idx} {ev} after {evs[:idx]} (cache {self.case['cache']}, accessory's state number at the start {self.case['acc0']}, "
+                        f"AccessoryPairingID {self.pid})")
+            try:
+                await self.step(ev)
+                await self.settle()
+            except Exception as e:  # noqa: BLE001 - library code on valid input (load_pairing, the scanner callback, async_start)
+                import traceback
+                where = traceback.extract_tb(e.__traceback__)[-1]
+                self.bad("notify/" + type(e).__name__, f"{self.tag}: raised {type(e).__name__}: {e} (at {where.filename}:{where.lineno})")
+                break
+            self.book()
+            if self.viol:
+                break
+        await self.kill_tasks()
+        self.acc.hang_up(notify=False)
+        await asyncio.sleep(0)
+        return self.viol, self.stats, self.obs
+
+    def cleanup(self):
+        import shutil
+        if self.tmp:
+            shutil.rmtree(self.tmp, ignore_errors=True)
+
+    async def step(self, ev):
+        import asyncio
+        import os
+        acc, kind = self.acc, ev[0]
+        if kind == "adv":
+            n = acc.gsn & 0xFFFF
+            self.detect(*_life_regular(n, LIFE_PID))
+            await asyncio.sleep(0)
+            if self.cur is not None:
+                self.S = _learned(self.S, n)
+                self.D = self.S
+                self.stats["regular/for-pairing"] += 1
+            else:
+                self.D = _learned(self.D, n) if self.D is not None else {n}
+                self.stats["regular/no-pairing"] += 1
+            for R in self.records:
+                if R["state"] == "retired":
+                    R["S"].add(n)
+            return
+        if kind == "range":
+            self.in_range = bool(ev[1])
+            return
+        if kind == "reset":         # the accessory is factory reset ("factory": its state number restarts) or its pairing is replaced ("repair"); pair-setup gives new long-term keys
+            acc.new_identity()
+            if ev[1] == "factory":
+                acc.gsn = 1
+            self.stats["accessory/" + ev[1]] += 1
+            return
+        if kind == "restart":
+            await self.end_process(ev[2])
+            if ev[1] == "wiped":    # the application's storage is gone
+                from aiohomekit.characteristic_cache import CharacteristicCacheMemory
+                if self.case["cache"]["kind"] == "file":
+                    if os.path.exists(self.path):
+                        os.unlink(self.path)
+                else:
+                    self.mem = CharacteristicCacheMemory()
+                self.store_keys, self.store_gen = set(), None
+            self.stats["restart/" + ev[1] + "/" + ev[2]] += 1
+            await self.boot()
+            return
+        if kind == "load":
+            g = acc.gen if ev[1] == "cur" else acc.gen - 1
+            if g < 0:
+                self.stats["skipped/load-prev"] += 1
+                return
+            pd = dict(acc.idents[g].pairing_data(connection="BLE"), AccessoryAddress=LIFE_PID)
+            for k in ("AccessoryIP", "AccessoryIPs", "AccessoryPort"):
+                pd.pop(k, None)
+            c = (self.cache.get_map(self.pid) or {}).get("state_num")      # the application's storage: used for the state number candidates only
+            if ev[2] == "load_data":
+                fn = os.path.join(self.tmpdir(), "pairings.json")
+                with open(fn, "w") as f:
+                    json.dump({TOP_ALIAS: pd}, f)
+                self.ctrl.load_data(fn)
+                p = self.ctrl.aliases[TOP_ALIAS]
+            else:
+                p = self.ctrl.load_pairing(TOP_ALIAS, pd)
+            if self.cur is not None:
+                self.retire(self.cur, removed=False)       # replaced without a removal
+                self.stats["load/again"] += 1
+            R = {"p": p, "gen": g, "log": [], "state": "live", "inherited": set(self.store_keys), "S": None, "removed": False}
+            p.dispatcher_connect(R["log"].append)
+            self.records.append(R)
+            self.cur = R
+            if self.store_keys:
+                if self.store_gen is not None and self.store_gen != g:
+                    self.stats["load/inherits-entry-of-other-identity-never-removed"] += 1
+                self.store_gen = g
+            if self.D is not None:
+                S = set(self.D)
+                top = max(_ints(S))
+                if isinstance(c, int) and c > top:
+                    S.add(c)
+                self.D = S
+            else:
+                new = {None} if c is None else {None, 0} if c == 0 else {c}
+                S = new if self.S is None else (set(self.S) | new)
+            self.S = S
+            self.stats[f"load/{ev[2]}/" + ("current-identity" if g == acc.gen else "previous-identity")] += 1
+            return
+        if kind == "sub":
+            if self.cur is None:
+                self.stats["skipped/sub"] += 1
+                return
+            p = self.cur["p"]
+
+            async def go():
+                await p.subscribe({(1, int(i)) for i in ev[1]})
+                await p.async_populate_accessories_state(force_update=True)
+            out = await self.call(go())
+            self.stats["subscribe+populate/" + out] += 1
+            return
+        if kind == "remove":
+            mode, cancel = ev[1], ev[2]
+            self.plan = _top_plan(mode)
+            out = await self.call(self.ctrl.remove_pairing(TOP_ALIAS), cancel)
+            await self.settle()
+            self.plan = {}
+            self.book()             # a key generated inside a session of the removal itself still belonged to the pairing that is being removed
+            self.stats["remove/" + mode.split(":")[0] + ("/cancelled-at" if cancel is not None else "") + "/" + out] += 1
+            if self.cur is not None:
+                # whatever the outcome: the controller no longer knows the pairing, the storage chain of its keys ends here
+                self.retire(self.cur, removed=True)
+                self.cur = None
+                self.store_keys, self.store_gen = set(), None
+                self.stats["remove/accessory-" + ("removed-it" if acc.ident.ios_id == "nobody" else "still-paired")] += 1
+            return
+        # ---- an encrypted advertisement
+        authentic, aid = True, ADV
+        if kind == "ev":            # the accessory's state changes: its number grows, it broadcasts if it has a key
+            acc.gsn = acc.gsn + 1 if acc.gsn < 0xFFFF else 1
+            k = acc.key_index()
+            if k is None:
+                self.stats["event/no-broadcast"] += 1
+                return
+            rec = {"k": k, "g": acc.gsn, "inner": None, "iid": FORMATS[ALL_FORMATS[ev[1] % len(ALL_FORMATS)]], "raw": unhx(ev[2])}
+            self.issued.append(rec)
+        elif kind == "replay":
+            if not self.issued:
+                self.stats["skipped/replay"] += 1
+                return
+            rec = self.issued[ev[1] % len(self.issued)]
+        elif kind == "bc":          # sealed now by somebody who knows one of the keys that ever existed
+            k = self.keyref(ev[1])
+            if k is None:
+                self.stats["skipped/bc"] += 1
+                return
+            rec = {"k": k, "g": ev[2], "inner": ev[3], "iid": ev[4], "raw": unhx(ev[5])}
+            authentic = 0 <= ev[2] <= 0xFFFF and ((ev[3] if ev[3] is not None else ev[2]) & 0xFFFF) == ev[2]
+        else:                       # 'forge': nothing that authenticates
+            rec = {"k": None, "g": ev[2], "inner": None, "iid": ev[3], "raw": b"\x01"}
+            authentic = False
+        key = acc.keys[rec["k"]]["key"] if rec["k"] is not None else bytes(32)
+        if kind == "forge" and ev[1] == "aad":
+            k = acc.key_index()
+            key = acc.keys[k]["key"] if k is not None else TOP_INIT_KEY
+            aid = OTHER
+        payload = seal(rec["g"], rec["iid"], rec["raw"], inner=rec["inner"], k=key, aid=aid)
+        if kind == "forge" and ev[1] == "bitflip":
+            k = acc.key_index()
+            x = bytearray(seal(rec["g"], rec["iid"], rec["raw"], k=acc.keys[k]["key"] if k is not None else TOP_INIT_KEY))
+            x[ev[4] // 8 % len(x)] ^= 1 << (ev[4] % 8)
+            payload = bytes(x)
+        marks = [len(R["log"]) for R in self.records]
+        before = self.state()
+        self.detect(*_life_encrypted(payload, ADV))
+        await asyncio.sleep(0)
+        self.stats["adv/" + kind] += 1
+        self.judge(rec, authentic, marks, before)
+
+    async def call(self, coro, cancel=None):
+        """an application call into the library that uses the radio: its outcome (a class name), never an exception"""
+        import asyncio
+        task = asyncio.ensure_future(coro)
+        if cancel is not None:
+            await asyncio.sleep(cancel)
+            task.cancel()
+        done, pending = await asyncio.wait({task}, timeout=900)
+        if pending:
+            task.cancel()
+            await asyncio.wait({task}, timeout=5)
+            return "never-returned"
+        if task.cancelled():
+            return "cancelled"
+        e = task.exception()
+        return "returned" if e is None else type(e).__name__
+
+    def keyref(self, ref):
+        """'acc': the key the accessory seals with now; 'init': the key of the cache entry at the start; ['old', n]: the n-th most recent key that is NOT the accessory's current one"""
+        acc = self.acc
+        if ref == "acc":
+            return acc.key_index()
+        if ref == "init":
+            return 0 if acc.keys and acc.keys[0]["key"] == TOP_INIT_KEY else None
+        cur = acc.key_index()
+        older = [i for i in range(len(acc.keys) - 1, -1, -1) if i != cur]
+        return older[ref[1]] if ref[1] < len(older) else None
+
+    def whose(self, k):
+        return f"broadcast key #{k} (negotiated by pairing identity #{self.acc.keys[k]['gen']})" if k is not None else "a key nobody ever negotiated"
+
+    def judge(self, rec, authentic, marks, before):
+        acc = self.acc
+        g, iid, raw, k = rec["g"], rec["iid"], rec["raw"], rec["k"]
+        tag = self.tag
+        for R, n0 in zip(self.records, marks):
+            new = R["log"][n0:]
+            if R is self.cur:
+                continue
+            if not new:
+                continue
+            if R["state"] == "dead":
+                self.bad("notify/accepted", f"{tag}: reached a listener of a pairing object of a process that has ended: {new[0]}")
+                continue
+            # a pairing object the application has replaced or removed (the library may still route advertisements to it): judged on its own keys, any number it may have
+            legit = authentic and k is not None and (k in R["inherited"] or acc.keys[k]["gen"] == R["gen"])
+            fresh = any(L < g < L + 100 for L in R["S"])
+            self.stats["retired-object-notified" + ("/removed" if R["removed"] else "/replaced")] += 1
+            if not (legit and fresh):
+                self.bad("notify/accepted" if not authentic or legit else "notify/foreign-key-accepted",
+                         f"{tag}: sealed under {self.whose(k)}, state number {g}: delivered {new[0]} to the listeners of pairing object #{self.records.index(R)} (identity #{R['gen']}, "
+                         f"{'removed' if R['removed'] else 'replaced'} earlier; numbers it may have had: {sorted(R['S'])})")
+            else:
+                R["S"].add(g)
+                if self.D is not None:
+                    self.D.add(g)
+        R = self.cur
+        if R is None:
+            return
+        new = R["log"][marks[self.records.index(R)]:]
+        after = self.state()
+        S = self.S
+        legit = authentic and k is not None and (k in R["inherited"] or acc.keys[k]["gen"] == R["gen"])
+        allowed = legit and any(L < g < L + 100 for L in _ints(S))
+        if not new and after == before:
+            self.stats["ignored" + ("/though-acceptable" if allowed else "")] += 1
+            return
+        cand = "nothing (no state number learned yet)" if not _ints(S) else "/".join(map(str, sorted(_ints(S))))
+        if not allowed:
+            if not authentic:
+                sig, why = "notify/accepted", "it does not authenticate"
+            elif not legit:
+                sig = "notify/foreign-key-accepted"
+                why = (f"it is sealed under {self.whose(k)} while the current pairing object (identity #{R['gen']}) was loaded after "
+                       f"{'the storage of its predecessors ended (remove_pairing / deleted cache)' if not R['inherited'] else 'inheriting keys ' + str(sorted(R['inherited']))} and its identity "
+                       f"negotiated {[i for i, x in enumerate(acc.keys) if x['gen'] == R['gen']] or 'no key at all'}")
+            else:
+                sig, why = "notify/accepted", f"the last state number the pairing has learned is {cand}"
+            if new:
+                self.bad(sig, f"{tag}: state number {g}: delivered {new[0]} (state {before}->{after}) although {why}")
+            else:
+                self.bad(sig if sig != "notify/accepted" else "notify/state-changed", f"{tag}: state number {g}: changed the state number {before}->{after} although {why}")
+            return
+        if after != g:
+            self.bad("notify/accepted" if new else "notify/state-changed", f"{tag}: authentic and fresh, {'delivered' if new else 'not delivered'}, but the state number went {before}->{after}, not to {g}")
+            return
+        if g <= max(_ints(S)):
+            self.stats["accepted-below-largest"] += 1
+        self.S = {g}
+        if self.D is not None:
+            self.D = self.S
+        for Z in self.records:
+            if Z["state"] == "retired":
+                Z["S"].add(g)
+        self.stats["accepted"] += 1
+        self.stats["accepted/under-" + ("own-identitys-key" if acc.keys[k]["gen"] == R["gen"] else "inherited-key")] += 1
+        if iid in self.fmt_of:
+            fmt = self.fmt_of[iid]
+            if len(new) != 1:
+                self.bad("notify/listener-missed", f"{tag}: accepted, but the listener connected to the current pairing object was called {len(new)} times")
+            for e in new:
+                if not (isinstance(e, dict) and list(e) == [(1, iid)] and isinstance(e[(1, iid)], dict) and "value" in e[(1, iid)]):
+                    self.bad("notify/accepted", f"{tag}: delivered under {list(e) if isinstance(e, dict) else e!r}, expected [(1, {iid})]")
+                elif not value_matches(fmt, raw, e[(1, iid)]["value"]):
+                    self.bad("notify/wrong-value", f"{tag}: instance id {iid} is {fmt}; accessory sealed {hx(raw)}, listeners got {e[(1, iid)]['value']!r}")
+            self.stats["delivered/" + fmt] += 1
+        elif new:
+            self.bad("notify/unknown-iid-delivered", f"{tag}: delivered {new[0]} for an instance id the database does not contain")
+        else:
+            self.stats["silent-unknown-iid"] += 1
+
+
+def run_top_history(case, loop=None):
+    """one history through the top-level Controller.  Returns (violations [(signature, what, event index)], stats, observations)"""
+    import contextlib
+    from unittest import mock
+
+    from harness.simnet import VLoop
+    W = _Top(case)
+
+    async def establish(device, name, disconnected_callback, *a, **k):
+        import asyncio
+        W.stats["radio/connection-attempt"] += 1
+        await asyncio.sleep(0.3)
+        if W.plan.get("down") or not W.in_range:
+            raise _top_exc(W.plan.get("down") or "BleakNotFoundError")
+        return W.acc.connect(disconnected_callback, W.plan)
+    own = loop is None
+    if own:
+        loop = VLoop()
+    try:
+        with contextlib.ExitStack() as st:
+            st.enter_context(mock.patch("aiohomekit.controller.ble.controller.BleakScanner", _TopScanner))
+            st.enter_context(mock.patch("aiohomekit.controller.ble.pairing.establish_connection", establish))
+            # no IP network in this check: only the BLE backend is registered
+            st.enter_context(mock.patch("aiohomekit.controller.controller.IP_TRANSPORT_SUPPORTED", False))
+            st.enter_context(mock.patch("aiohomekit.controller.controller.COAP_TRANSPORT_SUPPORTED", False))
+            # ... and the BLE backend is enabled the way an installation enables it (aiohomekit.const decides at import, from the environment)
+            st.enter_context(mock.patch("aiohomekit.controller.controller.BLE_TRANSPORT_SUPPORTED", True))
+            return loop.run_until_complete(W.run())
+    finally:
+        W.cleanup()
+        if own:
+            loop.close()
+
+
+class _TopScript:
+    """writes a history; keeps the accessory's state number (it depends on the events only) to place sealings in the window"""
+
+    def __init__(self, rng, acc0):
+        self.rng, self.gsn, self.evs = rng, acc0, []
+
+    def add(self, *evs):
+        for e in evs:
+            if e[0] == "ev":
+                self.event()
+            elif e[0] == "reset":
+                self.reset(e[1])
+            else:
+                self.evs.append(list(e))
+        return self
+
+    def event(self, n=1):
+        for _ in range(n):
+            self.gsn = self.gsn + 1 if self.gsn < 0xFFFF else 1
+            f = self.rng.randrange(len(ALL_FORMATS))
+            self.evs.append(["ev", f, hx(gen_raw(self.rng, ALL_FORMATS[f]))])
+
+    def reset(self, how):
+        if how == "factory":
+            self.gsn = 1
+        self.evs.append(["reset", how])
+
+    def sealed(self, keyref, delta, inner=None, unknown=False):
+        fmt = self.rng.choice(ALL_FORMATS)
+        g = self.gsn + delta
+        self.evs.append(["bc", keyref, g, None if inner is None else g + inner, self.rng.choice([999, 950]) if unknown else FORMATS[fmt], hx(gen_raw(self.rng, fmt))])
+
+    def probes(self, n_old=1, init=True):
+        """whatever was recorded, and fresh sealings under the keys that are no longer the accessory's"""
+        self.evs.append(["replay", self.rng.randrange(4)])
+        for n in range(n_old):
+            self.sealed(["old", n], self.rng.choice([1, 1, 2, 5]))
+        if init:
+            self.sealed("init", self.rng.choice([1, 3, 40]))
+
+
+def top_directed(ctx):
+    """first pairing (key from the cache entry or negotiated by itself) and some events -> Controller.remove_pairing in every way it can go -> (restart | restart without the
+    cache | nothing) -> the same pairing data, or the accessory reset / paired again and NEW pairing data -> probes with every key that ever existed -> the new pairing negotiates
+    its own key -> events and the probes again"""
+    rng = ctx.rng
+    out = []
+    ways = [(m, None) for m in TOP_REMOVALS] + list(TOP_CANCELS)
+    k = 0
+    for mode, cancel in ways:
+        for nxt in ("same", "factory", "repair"):
+            k += 1
+            if not ctx.thorough() and nxt != ("factory", "repair", "factory", "repair", "same")[(k // 3 + ctx.seed) % 5]:
+                continue            # quick: one continuation per way of removing, a different one for every seed
+            acc0 = (12, 60, 300, 5)[k % 4]
+            own_key = k % 3 == 0            # the first pairing negotiates its own key instead of relying on the cache entry's
+            entry = None if k % 9 == 0 else {"key": k % 3 != 0 or k % 2 == 0, "state": (acc0, acc0 - 3, None)[k % 5 % 3]}
+            s = _TopScript(rng, acc0)
+            first = (["adv"], ["load", "cur", "load_pairing"]) if k % 4 else (["load", "cur", "load_data"], ["adv"])
+            s.add(*first)
+            if own_key or entry is None or not entry["key"]:
+                s.add(["sub", [11, 12]])
+            s.event(2)
+            if k % 5 == 0:
+                s.add(["adv"])
+            s.add(["remove", mode, cancel])
+            between = k % 7
+            if between == 1:
+                s.add(["restart", "same", "stop"])
+            elif between == 2:
+                s.add(["restart", "same", "kill"])
+            elif between == 3:
+                s.add(["restart", "wiped", "stop"])
+            elif between == 4:
+                s.add(["remove", "ok", None])       # asked again: the alias is gone
+            if nxt != "same":
+                s.reset(nxt)
+            if k % 2 or between in (1, 2, 3):
+                s.add(["adv"])
+            s.add(["load", "cur" if k % 11 else "prev", "load_pairing" if k % 3 else "load_data"])
+            if k % 2 == 0 and between not in (1, 2, 3):
+                s.add(["adv"])
+            s.probes(2 if k % 4 == 0 else 1)
+            s.add(["sub", [10, 13]])
+            s.event(1)
+            s.add(["adv"])
+            s.event(1)
+            s.probes(1, init=k % 3 == 0)
+            out.append({"stream": "top", "lower": True, "acc0": acc0, "cache": {"kind": "file" if k % 2 else "memory", "entry": entry}, "events": s.evs,
+                        "label": f"{mode}/{cancel}/{nxt}/between{between}"})
+    return out
+
+
+def gen_top_history(rng, long=False):
+    acc0 = rng.choice([3, 12, 45, 99, 300, 40000, 65530])
+    entry = rng.choice([None, {"key": True, "state": acc0}, {"key": True, "state": acc0}, {"key": True, "state": max(acc0 - 4, 0)}, {"key": False, "state": acc0}, {"key": True, "state": None}])
+    s = _TopScript(rng, acc0)
+
+    def removal():
+        if rng.random() < 0.25:
+            m, c = rng.choice(TOP_CANCELS)
+            return ["remove", m, rng.choice([c, round(rng.uniform(0, 0.5), 3)])]
+        return ["remove", rng.choice(TOP_REMOVALS) if rng.random() < 0.75 else "ok", None]
+
+    def load():
+        return ["load", "cur" if rng.random() < 0.9 else "prev", "load_pairing" if rng.random() < 0.8 else "load_data"]
+    s.add(*rng.choice([(["adv"], load()), (load(), ["adv"]), (load(),), (["adv"], load(), ["sub", [11]])]))
+    for _ in range(rng.randrange(4, 28 if long else 14)):
+        r = rng.random()
+        if r < 0.10:
+            s.add(["adv"])
+        elif r < 0.17:
+            s.add(load())
+        elif r < 0.25:
+            s.add(["sub", rng.sample(sorted(FORMATS.values()), rng.randrange(1, 3))])
+        elif r < 0.40:
+            # a pairing ends and another one (or the same one) begins
+            s.add(removal())
+            if rng.random() < 0.3:
+                s.add(["restart", rng.choice(["same", "same", "wiped"]), rng.choice(["stop", "kill"])])
+            if rng.random() < 0.6:
+                s.reset(rng.choice(["factory", "repair"]))
+            if rng.random() < 0.7:
+                s.add(["adv"])
+            s.add(load())
+            if rng.random() < 0.3:
+                s.add(["adv"])
+            s.probes(rng.randrange(1, 3))
+        elif r < 0.44:
+            s.reset(rng.choice(["factory", "repair"]))
+        elif r < 0.49:
+            s.add(["restart", rng.choice(["same", "same", "same", "wiped"]), rng.choice(["stop", "kill"])])
+            s.add(*rng.choice([(load(),), (["adv"], load()), (load(), ["adv"])]))
+        elif r < 0.66:
+            s.event(rng.choice([1, 1, 2]))
+        elif r < 0.74:
+            s.add(["replay", rng.randrange(8)])
+        elif r < 0.84:
+            s.sealed(rng.choice(["acc", "acc", "init", ["old", 0], ["old", 0], ["old", 1], ["old", 2]]), rng.choice([1, 1, 2, 5, 50, 99, 0, -1, 100, 150]),
+                     inner=rng.choice([None] * 6 + [1, -1]), unknown=rng.random() < 0.1)
+        elif r < 0.90:
+            what = rng.choice(["zero", "aad", "bitflip"])
+            s.add(["forge", what, s.gsn + 1, FORMATS[rng.choice(ALL_FORMATS)]] + ([rng.randrange(16 * 8)] if what == "bitflip" else []))
+        elif r < 0.94:
+            s.add(["range", rng.random() < 0.5])
+        else:
+            s.add(removal())
+    return {"stream": "top", "lower": rng.random() < 0.75, "acc0": acc0, "cache": {"kind": rng.choice(["memory", "file"]), "entry": entry}, "events": s.evs}
+
+
+def top_stream(ctx):
+    from harness.simnet import VLoop
+    rng = ctx.rng
+    directed = top_directed(ctx)
+    # the same histories under an AccessoryPairingID that is not lower case (probes, see ASSUMPTIONS)
+    upper = [dict(c, lower=False, label=c["label"] + "/upper") for c in directed[ctx.seed % 5::5]]
+    cases = directed + upper + [gen_top_history(rng, ctx.thorough()) for _ in range(ctx.budget(60, 800))]
+    loop = VLoop()
+    probes = {}
+    try:
+        for case in cases:
+            try:
+                viol, stats, obs = run_top_history(case, loop)
+            except Exception as e:  # noqa: BLE001 - starting the controller over the cache ...: library code on valid input
+                import traceback
+                where = traceback.extract_tb(e.__traceback__)[-1]
+                viol, stats, obs = [("notify/" + type(e).__name__, f"the top-level history could not be run: {type(e).__name__}: {e} (at {where.filename}:{where.lineno})", len(case["events"]))], {}, []
+            ctx.evaluations += 1
+            ctx.nontrivial.add(("top", hashlib.sha1(json.dumps(case, sort_keys=True).encode()).hexdigest()))
+            ctx.dist["top"] += 1
+            ctx.dist["top/id-" + ("lower" if case.get("lower", True) else "not-lower")] += 1
+            for key, n in stats.items():
+                ctx.dist["top/" + key] += n
+            seen = set()
+            for sig, what, idx in viol:
+                if sig in seen:
+                    continue
+                seen.add(sig)
+                if case.get("lower", True):
+                    ctx.violation(sig, what, dict(case, events=case["events"][:idx + 1]))
+                else:
+                    ctx.dist["top/probe/" + sig] += 1
+                    probes.setdefault(sig, what)
+    finally:
+        loop.close()
+    ctx.sample({k: (v if len(str(v)) < 900 else str(v)[:900] + "...") for k, v in cases[3].items()})
+    for sig, what in probes.items():
+        ctx.notes.append(f"top (probe, AccessoryPairingID not lower case, not gated): {ctx.dist['top/probe/' + sig]} histories with {sig}, e.g. {what[:1500]}")
+    if ctx.dist["top/load/inherits-entry-of-other-identity-never-removed"]:
+        ctx.notes.append(f"top: {ctx.dist['top/load/inherits-entry-of-other-identity-never-removed']} pairings were loaded with new pairing data while the cache entry of the previous identity had never "
+                         "been removed (no remove_pairing, cache kept): whatever they accept under the inherited key draws no verdict")
+
+
 def run(ctx: Ctx, driver: Driver):
     rng = ctx.rng
     cases, outs, lines = [], [], []
@@ -1778,9 +2670,14 @@ def run(ctx: Ctx, driver: Driver):
     life_stream(ctx)
     # histories in which the accessory database of a pairing is replaced between notifications
     db_stream(ctx, driver)
+    # histories through the top-level Controller: pairings are removed (in every way that can go), loaded again with the same or new pairing data, processes restart
+    top_stream(ctx)
 
 
 def replay(ctx, driver, c):
+    if isinstance(c, dict) and c.get("stream") == "top":
+        viol, _, _ = run_top_history(c)
+        return [{"signature": sig, "what": what} for sig, what, _ in viol] or None
     if isinstance(c, dict) and c.get("stream") == "dbhist":
         viol, _, _, _ = run_db_history(c)
         return [{"signature": sig, "what": what} for sig, what, _ in viol] or None
